@@ -112,7 +112,8 @@ theorem wi_congr {split : String → String} {s : LoadScope.State String String}
     intro o hm hr
     rw [← isRun_mem_dispatches _ _ hr] at hm ⊢
     rw [← hd]; exact hm
-  refine ⟨h.hom, h.di, fun col hc => ⟨(h.agreed col hc).1, LoadScope.runsOk_mono (h.agreed col hc).2 hmem⟩, ?_, h.cmp⟩
+  refine ⟨h.hom, h.di, fun col hc => ⟨(h.agreed col hc).1, LoadScope.runsOk_mono (h.agreed col hc).2 hmem⟩, ?_, h.cmp,
+    fun n is hm => h.toReg n is (hmem _ hm rfl)⟩
   intro hc o hm
   cases hr : LoadScope.isRun o with
   | false => rfl
@@ -156,12 +157,13 @@ theorem C06_sys_every_runtests_one_group (specs : AList Nat Nat) (m : String) (n
       ∀ i ∈ is, ∃ t, col[i]? = some t ∧ Sched.splitOf m t = scope := by
   have h0 : ScopeW m (init (Sched.iface specs) (.scope m (LoadScope.init numnodes)) numnodes maxfail mr idsOf).ctl.sched
       (init (Sched.iface specs) (.scope m (LoadScope.init numnodes)) numnodes maxfail mr idsOf).ctl.env := by
-    refine ⟨rfl, ⟨?_, ?_⟩, LoadScope.init_di numnodes, ?_, ?_, ?_⟩
+    refine ⟨rfl, ⟨?_, ?_⟩, LoadScope.init_di numnodes, ?_, ?_, ?_, ?_⟩
     · intro p hp; simp [LoadScope.init] at hp
     · intro a ha; simp [LoadScope.init] at ha
     · intro col hc; simp [LoadScope.init] at hc
     · intro _ o hm; simp [init, Ctl.init] at hm
     · intro hc; simp [LoadScope.init] at hc
+    · intro n is hm; simp [init, Ctl.init] at hm
   have hp := run_discS (Sched.iface specs) (iface_scopeW specs m) idsOf steps h0 h
   cases hsc : st.ctl.sched with
   | scope m' s =>
@@ -186,12 +188,13 @@ theorem scope_wi (specs : AList Nat Nat) (m : String) (numnodes maxfail : Nat) (
     ∃ s, st.ctl.sched = .scope m s ∧ LoadScope.WI (Sched.splitOf m) s st.ctl.env := by
   have h0 : ScopeW m (init (Sched.iface specs) (.scope m (LoadScope.init numnodes)) numnodes maxfail mr idsOf).ctl.sched
       (init (Sched.iface specs) (.scope m (LoadScope.init numnodes)) numnodes maxfail mr idsOf).ctl.env := by
-    refine ⟨rfl, ⟨?_, ?_⟩, LoadScope.init_di numnodes, ?_, ?_, ?_⟩
+    refine ⟨rfl, ⟨?_, ?_⟩, LoadScope.init_di numnodes, ?_, ?_, ?_, ?_⟩
     · intro p hp; simp [LoadScope.init] at hp
     · intro a ha; simp [LoadScope.init] at ha
     · intro col hc; simp [LoadScope.init] at hc
     · intro _ o hm; simp [init, Ctl.init] at hm
     · intro hc; simp [LoadScope.init] at hc
+    · intro n is hm; simp [init, Ctl.init] at hm
   have hp := run_discS (Sched.iface specs) (iface_scopeW specs m) idsOf steps h0 h
   cases hsc : st.ctl.sched with
   | scope m' s =>
@@ -202,6 +205,31 @@ theorem scope_wi (specs : AList Nat Nat) (m : String) (numnodes maxfail : Nat) (
   | load s => rw [hsc] at hp; exact hp.elim
   | ws s => rw [hsc] at hp; exact hp.elim
   | each s => rw [hsc] at hp; exact hp.elim
+
+/-- **Tests go only to workers that collected exactly the agreed collection, whole system** (C09; `loadscope`, `loadfile`,
+    `loadgroup`).  After any execution of the composed system — late replacements, crashes, any order of the collection reports —,
+    every `runtests` command that has ever been written was addressed to a worker that is registered with the scheduler, the
+    collection was agreed by then, and what that worker reported is exactly the agreed collection: a worker whose collection differs
+    is never given a single test. -/
+theorem C09_sys_scope_tests_only_to_agreeing_workers (specs : AList Nat Nat) (m : String) (numnodes maxfail : Nat) (mr : Option Int)
+    (idsOf : Nat → List String) (steps : List Step) {st : State Sched.Any String}
+    (h : run (Sched.iface specs) idsOf (init (Sched.iface specs) (.scope m (LoadScope.init numnodes)) numnodes maxfail mr idsOf) steps = .ok st)
+    (n : Nat) (is : List Nat) (hrun : SOut.run n is ∈ st.ctl.env.outs) :
+    ∃ s col, st.ctl.sched = .scope m s ∧ s.collection = some col ∧ AList.lookup s.registered n = some col := by
+  obtain ⟨s, hs, hwi⟩ := scope_wi specs m numnodes maxfail mr idsOf steps h
+  cases hc : s.collection with
+  | none => have := hwi.quiet hc _ hrun; cases this
+  | some col =>
+    refine ⟨s, col, hs, hc, ?_⟩
+    have hk := hwi.toReg n is hrun
+    cases hl : AList.lookup s.registered n with
+    | none =>
+      have := (AList.lookup_isSome_iff_mem_keys _ _).2 hk
+      rw [hl] at this; cases this
+    | some c =>
+      have := (hwi.agreed col hc).1 _ (LoadScope.mem_of_lookup' hl)
+      simp only at this
+      rw [this]
 
 /-- **What a worker runs is made of whole groups, in order** (C06, the observable form; `m` is `loadscope`, `loadfile` or `loadgroup`).
     After any execution of the composed system, for every worker process: the test indices it has put on its queue so far are the
